@@ -934,6 +934,11 @@ namespace link_layer {
             return current_channel_index_ + first_advertising_channel;
         }
 
+        void select_first_channel()
+        {
+            current_channel_index_ = first_channel_index();
+        }
+
         void next_channel()
         {
             assert( map_ != 0 );
@@ -988,6 +993,11 @@ namespace link_layer {
         unsigned current_channel() const
         {
             return current_channel_index_;
+        }
+
+        void select_first_channel()
+        {
+            current_channel_index_ = first_advertising_channel;
         }
 
         void next_channel()
@@ -1138,6 +1148,9 @@ namespace link_layer {
 
                 if ( !advertising_data.empty() && this->begin_of_advertising_events() )
                 {
+                    // every (re)start of advertising begins with a complete advertising event
+                    this->select_first_channel();
+
                     this->base_link_layer().set_access_address_and_crc_init(
                         this->advertising_radio_access_address,
                         this->advertising_crc_init );
@@ -1320,6 +1333,9 @@ namespace link_layer {
 
                 if ( !advertising_data.empty() && this->begin_of_advertising_events() )
                 {
+                    // every (re)start of advertising begins with a complete advertising event
+                    this->select_first_channel();
+
                     this->base_link_layer().set_access_address_and_crc_init(
                         this->advertising_radio_access_address,
                         this->advertising_crc_init );
